@@ -196,9 +196,10 @@ def load_or_error(xml, url=H.SURL):
 
 
 def compare(composed_xml, expanded_model, acc, mid, depth, feature, composed_loader=None, top_unordered=False,
-            ref_model=None, on_text=None):
+            ref_model=None, on_text=None, root=()):
     """Load both; replay the BFS of the expanded schema on both.  `ref_model`: the view of the expansion given to
-    C01's reference model (which only tells the unspecified texts apart) when it does not know a datatype."""
+    C01's reference model (which only tells the unspecified texts apart) when it does not know a datatype.
+    `root`: event prefix the search starts from (wave 5).  -> 'acceptance-differs' | 'both-refused' | 'both-accepted'"""
     Sx = expanded_model
     Sr = ref_model if ref_model is not None else Sx
     ex_xml = M.render(Sx)
@@ -214,10 +215,10 @@ def compare(composed_xml, expanded_model, acc, mid, depth, feature, composed_loa
     if (sch_e is None) != (sch_c is None) or isinstance(err_e, dict) or isinstance(err_c, dict):
         acc.violation("schema-acceptance-differs", case0, ["composed", err_c or "accepted"],
                       ["expanded", err_e or "accepted"], tags={"kind": "schema-acceptance", "feature": feature})
-        return
+        return "acceptance-differs"
     if sch_e is None:
         acc.cls("both-refused")
-        return
+        return "both-refused"
     acc.cls("both-accepted")
     st_c, st_e = struct(sch_c, top_unordered), struct(sch_e, top_unordered)
     if st_c != st_e:
@@ -252,7 +253,8 @@ def compare(composed_xml, expanded_model, acc, mid, depth, feature, composed_loa
             acc.extra["expanded_disagrees_with_reference(C01's)"] += 1
         return oe[0] != "I" and ref.verdict != "U"
 
-    bfs.explore(Sx, sch_e, (), depth, acc, check)
+    bfs.explore(Sx, sch_e, tuple(root), depth, acc, check)
+    return "both-accepted"
 
 
 def shard_models(arg, acc):
@@ -1189,6 +1191,536 @@ def shard_histories(arg, acc):
     return acc
 
 
+# ---------------------------------------------------------------------------
+# Wave 5.  Three axes that were missing:
+#
+# (h) NAMES ALREADY IN USE.  Until now every generated child had a fresh plain name, so a key name was always its
+#     own attribute name and nothing a derived type (or an extending schema) added ever met anything inherited.
+#     Written out, an added child clashes with an inherited one iff the key names or the attribute names coincide;
+#     here the inherited children have attribute != key name (hyphen / capitals folded, attribute= given, '*'
+#     sections that have no key at all, the '+' key) and the added child takes EVERY (key name, attribute) pair over
+#     the pool of names the inherited children occupy in either table.
+# (i) IMPORT GRAPHS WITH BACK EDGES.  Import graphs had been acyclic (pb -> pa, pc -> pa / pb): a second path to a
+#     component always arrived after the first import had completed.  Now every package imports every list over ALL
+#     packages (itself included), and a component has its <import> elements before or after its own types.
+# (j) NAMES THAT KEY TYPES TELL APART, IN EVERY DOCUMENT OF A SCHEMA-EXTENDS SET-UP.  Base schema files only had
+#     lower-case names (fixed points of every key type), so it did not matter under which key type the body of a
+#     base file was read.  Every tree of <= 3 base documents x every key type assignment x the document that
+#     carries a '+' key with capitalised default keys.
+
+NT_FORMS = ("L2", "L3-far", "L3-near", "X")
+
+
+def nt_base_alphabet(kt):
+    hy = kt != "identifier"           # 'a-b' is no identifier: there the renamed children are renamed by case folding
+    return (("renamed-key", M.Key("a-b" if hy else "Ab", default="1")),
+            ("key-with-attribute", M.Key("k", attribute="v", default="2")),
+            ("star-section", M.Sect("*", "l1", attribute="s")),
+            ("star-multisection", M.Sect("*", "l1", attribute="ms", multi=True)),
+            ("named-section-with-attribute", M.Sect("n", "l1", attribute="sv")),
+            ("renamed-multikey", M.MultiKey("m-k" if hy else "Mk", defaults=("1",))),
+            ("wildcard-key", M.Key("+", attribute="w", default=(("da", "x"),))),
+            ("plain-key", M.Key("p", default="3")))
+
+
+def nt_names(it, kt):
+    """(key name or None, attribute name or None) of a child as docs/writing-schema.rst defines them: the key name
+    is the name converted by the key type of the container ('+' for a wildcard key, none for '*' / '+' sections);
+    the attribute is attribute= or else the key name lower-cased with '-' replaced by '_'.  None = not a name."""
+    if it.name in ("*", "+"):
+        key = "+" if isinstance(it, (M.Key, M.MultiKey)) else None
+        attr = it.attribute
+    else:
+        key = R.KEYTYPES[kt or "basic-key"](it.name)
+        if key is None:
+            return None, None
+        attr = it.attribute or key.lower().replace("-", "_")
+    if attr is not None and R.kt_identifier(attr) is None:
+        return key, None
+    return key, attr
+
+
+def nt_pool(base_items, kt):
+    """every name the inherited children occupy as key name or as attribute, the key names in capitals, and 'z'"""
+    out = []
+    for it in base_items:
+        key, attr = nt_names(it, kt)
+        named = it.name not in ("*", "+")
+        for n in (it.name if named else None, attr, it.name.upper() if named else None):
+            if n and n not in out:
+                out.append(n)
+    out.append("z")
+    return out
+
+
+def nt_added(pool, tier):
+    """the child the derived type adds: kind x key name x attribute (None = computed from the name)"""
+    attrs = [None] + [n for n in pool if R.kt_identifier(n) is not None]
+    out = []
+    for n in pool:
+        for a in attrs:
+            out.append(M.Key(n, attribute=a, default="9"))
+            out.append(M.Sect(n, "l1", attribute=a))
+            if tier != "quick":
+                out.append(M.MultiKey(n, attribute=a, defaults=("9",)))
+    for a in attrs[1:]:
+        out.append(M.Key("+", attribute=a, default=(("da", "x"),)))
+        out.append(M.Sect("*", "l1", attribute=a))
+        if tier != "quick":
+            out.append(M.Sect("*", "l1", attribute=a, multi=True))
+            out.append(M.Sect("+", "l1", attribute=a))
+    return out
+
+
+def nt_space(tier):
+    """(form, key type, labels of the inherited children).  quick: one inherited child in every form under both key
+    types, two inherited children (every unordered pair) in form L2 under both key types;
+    thorough: one and two (every ORDERED pair) in every form under both key types."""
+    out = []
+    for kt in (None, "identifier"):
+        labels = [l for l, _ in nt_base_alphabet(kt)]
+        for form in NT_FORMS:
+            for l in labels:
+                out.append((form, kt, (l,)))
+            if tier != "quick":
+                out += [(form, kt, p) for p in itertools.permutations(labels, 2)]
+            elif form == "L2":
+                out += [(form, kt, p) for p in itertools.combinations(labels, 2)]
+    return out
+
+
+def nt_items(kt, labels):
+    tab = dict(nt_base_alphabet(kt))
+    return tuple(tab[l] for l in labels)
+
+
+def nt_count(tier):
+    return sum(len(nt_added(nt_pool(nt_items(kt, labels), kt), tier)) for _, kt, labels in nt_space(tier))
+
+
+def nt_relation(base_items, d, kt):
+    """how the added child relates to the inherited ones (reference view; classifies, never decides)"""
+    dk, da = nt_names(d, kt)
+    if (dk is None and d.name not in ("*", "+")) or da is None:
+        return "not-a-name", True
+    rel = set()
+    for it in base_items:
+        k, a = nt_names(it, kt)
+        if dk is not None and dk == k:
+            rel.add("same-key-name")
+        elif da == a:
+            rel.add("same-attribute-different-key-name")
+        if da is not None and da == k and a != k:
+            rel.add("attribute-equals-an-inherited-key-name")
+        if dk is not None and dk == a and a != k:
+            rel.add("key-name-equals-an-inherited-attribute")
+    clash = bool(rel & {"same-key-name", "same-attribute-different-key-name"})
+    for r in ("same-key-name", "same-attribute-different-key-name", "attribute-equals-an-inherited-key-name",
+              "key-name-equals-an-inherited-attribute"):
+        if r in rel:
+            return r, clash
+    return "unrelated", clash
+
+
+def file_loader(path):
+    def loader():
+        import ZConfig
+        try:
+            return ZConfig.loadSchema(path), None
+        except ZConfig.SchemaError as e:
+            return None, "SchemaError: %s" % str(e)[:100]
+        except Exception as e:
+            return None, core.exc_desc(e)
+    return loader
+
+
+def shard_names(arg, acc):
+    lo, hi, tier = arg
+    space = nt_space(tier)
+    l1 = M.SType("l1", (M.Key("lk", default="d"),))
+    q = M.Key("q", default="4")
+    d0 = None
+    try:
+        for idx in range(lo, min(hi, len(space))):
+            form, kt, labels = space[idx]
+            base_items = nt_items(kt, labels)
+            for d in nt_added(nt_pool(base_items, kt), tier):
+                mid = {"feature": "names-in-use", "form": form, "keytype": kt, "inherited": list(labels),
+                       "added": [type(d).__name__ + ("*" if getattr(d, "multi", False) else ""), d.name, d.attribute]}
+                rel, clash = nt_relation(base_items + ((q,) if form.startswith("L3") else ()), d, kt)
+                if form == "X":
+                    if d0 is None:
+                        d0 = tempfile.mkdtemp(prefix="vz-c11-", dir="/dev/shm" if os.path.isdir("/dev/shm") else None)
+                    base_xml = M.render(M.Schema(types=(l1,), items=base_items, keytype=kt))
+                    top_xml = M.render(M.Schema(items=(d,), extends=("nbase.xml",)))
+                    for fn, xml in (("nbase.xml", base_xml), ("htop.xml", top_xml)):
+                        with open(os.path.join(d0, fn), "w") as f:
+                            f.write(xml)
+                    mid["files"] = {"nbase.xml": base_xml, "htop.xml": top_xml}
+                    merged = M.Schema(types=(l1,), items=base_items + (d,), keytype=kt)
+                    st = compare(top_xml, X.expand(merged), acc, mid, 1, "names-in-use",
+                                 composed_loader=file_loader(os.path.join(d0, "htop.xml")), top_unordered=True)
+                else:
+                    if form == "L2":
+                        types = [M.SType("nb", base_items, keytype=kt), M.SType("nd", (d,), extends="nb")]
+                    elif form == "L3-far":
+                        types = [M.SType("nb", base_items, keytype=kt), M.SType("nm", (q,), extends="nb"),
+                                 M.SType("nd", (d,), extends="nm")]
+                    else:
+                        types = [M.SType("nb", (q,), keytype=kt), M.SType("nm", base_items, extends="nb"),
+                                 M.SType("nd", (d,), extends="nm")]
+                    S = M.Schema(types=(l1,) + tuple(types),
+                                 items=tuple(M.Sect("*", t.name, attribute="c_" + t.name, multi=True) for t in types))
+                    st = compare(M.render(S), X.expand(S), acc, mid, 1, "names-in-use", root=(("o", "nd", None),))
+                acc.cls("names:%s:%s" % (rel, st))
+                acc.cls("names:form-%s" % form)
+                if st != "acceptance-differs" and clash != (st == "both-refused"):
+                    acc.extra["names: the expansion's acceptance is not what the documented naming rule says"] += 1
+    finally:
+        if d0 is not None:
+            shutil.rmtree(d0, ignore_errors=True)
+    return acc
+
+
+# ---------------------------------------------------------------------------
+# (i) import graphs with back edges
+
+CY_PK = ("pa", "pb", "pc")
+
+
+def cy_lists(tier):
+    out = [()] + [(p,) for p in CY_PK]
+    if tier != "quick":
+        out += list(itertools.permutations(CY_PK, 2))
+    return out
+
+
+def cy_worlds(tier):
+    """(imports of pa, of pb, of pc, (types-first flag per package)).  Every package imports every list of length <= 2
+    without repetition over ALL three packages (the package itself included); the flag 'types before the <import>
+    elements' per package (quick: per package when no list is longer than 1, else all components alike)."""
+    ls = cy_lists("thorough")
+    uniform = [(False,) * 3, (True,) * 3]
+    every = list(itertools.product((False, True), repeat=3))
+    out = []
+    for a in ls:
+        for b in ls:
+            for c in ls:
+                short = max(len(a), len(b), len(c)) <= 1
+                out += [(a, b, c, fl) for fl in (every if short or tier != "quick" else uniform)]
+    return out
+
+
+def cy_tops():
+    return [t for n in (1, 2) for t in itertools.product(CY_PK, repeat=n)]
+
+
+def cy_component(imports, types, types_first):
+    lines = ["<component>"]
+    imp = ['  <import package="%s"/>' % p for p in imports]
+    body = []
+    for t in types:
+        body += M.render_type(t)
+    lines += (body + imp) if types_first else (imp + body)
+    lines.append("</component>")
+    return "\n".join(lines) + "\n"
+
+
+def shard_cycles(arg, acc):
+    lo, hi, tier = arg
+    worlds = cy_worlds(tier)
+    tops = cy_tops()
+    ta = M.SType("ta", (M.Key("ak", default="a"),), implements="a")
+    tb = M.SType("tb", (M.Key("bk"),), extends="ta")
+    tc = M.SType("tc", (M.MultiKey("cm"),), implements="a")
+    tdefs = {"pa": [ta], "pb": [tb], "pc": [tc]}
+    P = pkgs.Packages()
+    cache = {}
+
+    def expected(k_top, k_all, items):
+        """the expansion with the types k_all (in this order) and the slots of k_top: schema object, structure,
+        every text of the depth-1 search, and four probe bodies"""
+        if (k_top, k_all) not in cache:
+            byname = {t.name: t for ts in tdefs.values() for t in ts}
+            Sx = X.expand(M.Schema(types=(M.AType("a"),) + tuple(byname[n] for n in k_all), items=tuple(items)))
+            ex_xml = M.render(Sx)
+            sch_e, err_e = load_or_error(ex_xml)
+            if sch_e is None:
+                raise core.HarnessError("expansion of an import graph refused: %r" % (err_e,))
+            texts = []
+
+            def collect(hist, text):
+                oe = outcome(sch_e, text)
+                ref = R.decide(Sx, hist)
+                texts.append((hist, text, oe, ref.verdict))
+                return oe[0] != "I" and ref.verdict != "U"
+            sub = core.Acc()
+            bfs.explore(Sx, sch_e, (), 1, sub, collect)
+            probes = []
+            for h in [()] + [(("e", n, None),) for n in ("ta", "tb", "tc")]:
+                txt = H.render_events(h)
+                probes.append((h, txt, outcome(sch_e, txt), R.decide(Sx, h).verdict))
+            acc.ev(1 + len(texts) + len(probes))
+            acc.states += 1 + sub.states
+            cache[(k_top, k_all)] = (ex_xml, struct(sch_e), texts, probes)
+        return cache[(k_top, k_all)]
+
+    try:
+        for widx in range(lo, min(hi, len(worlds))):
+            da, db, dc, flags = worlds[widx]
+            deps = {"pa": da, "pb": db, "pc": dc}
+            tfirst = dict(zip(CY_PK, flags))
+            rn = {p: P.add_component("%s%d" % (p, widx), tdefs[p]) for p in CY_PK}
+            files = {}
+            for p in CY_PK:
+                files[rn[p]] = cy_component([rn[x] for x in deps[p]], tdefs[p], tfirst[p])
+                with open(os.path.join(P.dir, rn[p], "component.xml"), "w") as f:
+                    f.write(files[rn[p]])
+
+            def closure(lst):
+                """components in first-import order (a component counts as imported from the moment its import
+                starts: a path that leads back to it finds it there), the types in the order in which they are
+                written out, whether a type is used before its definition, what kinds of repeated arrival occurred"""
+                order, seq, stack, kinds = [], [], [], set()
+
+                def imp(p):
+                    if p in order:
+                        if stack and stack[-1] == p:
+                            kinds.add("component-imports-itself")
+                        elif p in stack:
+                            kinds.add("back-edge-to-a-component-in-progress")
+                        else:
+                            kinds.add("second-path-to-a-completed-component")
+                        return
+                    order.append(p)
+                    stack.append(p)
+                    if tfirst[p]:
+                        seq.extend(tdefs[p])
+                    for x in deps[p]:
+                        imp(x)
+                    if not tfirst[p]:
+                        seq.extend(tdefs[p])
+                    stack.pop()
+                for p in lst:
+                    imp(p)
+                defined = [t.name for t in seq]
+                ill = any(t.extends and t.extends not in defined[:i] for i, t in enumerate(seq))
+                return order, seq, ill, kinds
+
+            for top in tops:
+                order, seq, ill, kinds = closure(top)
+                items = [M.Sect("*", "a", attribute="abs", multi=True)]
+                if not ill:
+                    items += [M.Sect("*", t.name, attribute="s_" + t.name, multi=True) for t in seq]
+                composed = M.render(M.Schema(types=(M.AType("a"),), items=tuple(items),
+                                             imports=tuple(rn[p] for p in top), import_pos=1))
+                mid = {"feature": "import-cycles", "schema_imports": list(top), "imports_of": {p: list(deps[p]) for p in CY_PK},
+                       "types_first": [p for p in CY_PK if tfirst[p]], "composed": composed, "components": files}
+                sch_c, err_c = load_or_error(composed)
+                acc.ev()
+                acc.states += 1
+                for k in kinds:
+                    acc.cls("cycles:" + k)
+                if kinds & {"component-imports-itself", "back-edge-to-a-component-in-progress"} and \
+                        any(tfirst[p] and deps[p] for p in order):
+                    acc.cls("cycles:back-edge-and-types-written-before-the-imports")
+                if ill:
+                    if sch_c is not None or isinstance(err_c, dict):
+                        acc.violation("import-order-makes-type-undefined-but-accepted", mid, err_c or "accepted",
+                                      "SchemaError", tags={"kind": "schema-acceptance", "feature": "import-cycles"})
+                    else:
+                        acc.cls("both-refused")
+                    continue
+                k_top = tuple(t.name for t in seq)
+                ex_xml, st_e, texts, probes = expected(k_top, k_top, items)
+                if sch_c is None:
+                    acc.violation("schema-acceptance-differs", dict(mid, expanded=ex_xml), ["composed", err_c],
+                                  ["expanded", "accepted"], tags={"kind": "schema-acceptance", "feature": "import-cycles"})
+                    continue
+                acc.cls("both-accepted")
+                if kinds & {"component-imports-itself", "back-edge-to-a-component-in-progress"}:
+                    acc.cls("cycles:accepted-schema-with-a-back-edge")
+                st_c = struct(sch_c)
+                if st_c != st_e:
+                    acc.violation("composed-schema-structure-differs-from-expansion", dict(mid, expanded=ex_xml),
+                                  ["composed"] + struct_diff(st_c, st_e)[:1], ["expanded"] + struct_diff(st_c, st_e)[1:],
+                                  tags={"kind": "structure", "feature": "import-cycles"})
+                    continue
+                reads = [("", (), ex_xml, t) for t in texts]
+                # '%import P' in front of a text: one more entry into the graph, from the configuration
+                for p in CY_PK:
+                    o2, seq2, ill2, kinds2 = closure(tuple(top) + (p,))
+                    line = "%%import %s\n" % rn[p]
+                    if ill2:
+                        reads.append((line, kinds2, None, ((), "", ("R",), "R")))
+                        continue
+                    ex2, _, _, probes2 = expected(k_top, tuple(t.name for t in seq2), items)
+                    reads += [(line, kinds2, ex2, t) for t in probes2]
+                for line, kinds2, exx, (hist, body, oe, verdict) in reads:
+                    oc = outcome(sch_c, line + body)
+                    acc.ev()
+                    acc.transitions += 1
+                    if hist or line:
+                        acc.nt()
+                    acc.cls("text:%s" % oe[0])
+                    if line:
+                        acc.cls("cycles:text-with-%import")
+                        if (set(kinds2) - set(kinds)) & {"component-imports-itself", "back-edge-to-a-component-in-progress"}:
+                            acc.cls("cycles:%import-enters-a-cycle-the-schema-had-not-entered")
+                    acc.sample(lambda: {"feature": "import-cycles", "schema_imports": list(top),
+                                        "imports_of": {p: list(deps[p]) for p in CY_PK},
+                                        "types_first": [p for p in CY_PK if tfirst[p]],
+                                        "text": line + body, "outcome": oe[0]})
+                    if verdict == "U":
+                        acc.cls("text:unspecified")
+                        continue
+                    if oc != oe:
+                        acc.violation("composed-differs-from-expansion",
+                                      dict(mid, expanded=exx, text=line + body, body=body),
+                                      ["composed", oc[0], repr(oc[1:])[:300]], ["expanded", oe[0], repr(oe[1:])[:300]],
+                                      tags={"kind": "differs", "feature": "import-cycles", "composed": oc[0],
+                                            "expanded": oe[0], "percent_import": bool(line)})
+                        break
+    finally:
+        P.close()
+    return acc
+
+
+# ---------------------------------------------------------------------------
+# (j) schema-level extends: names that key types tell apart, in every document
+
+L = ()
+SE_SHAPES = ((L,), (L, L), ((L,),), (L, L, L), ((L,), L), (L, (L,)), ((L, L),), (((L,),),))
+SE_CONFLICT = "CONFLICT"
+
+
+def se_docs(shape):
+    """-> (documents in preorder: {id, bases}, ids of the top schema's bases)"""
+    docs = []
+
+    def walk(node):
+        d = {"id": len(docs) + 1, "bases": []}
+        docs.append(d)
+        for c in node:
+            d["bases"].append(walk(c))
+        return d["id"]
+    return docs, [walk(n) for n in shape]
+
+
+def se_space(tier):
+    """(shape index, key type per base document, key type of the extending schema, document that carries the '+'
+    key: 0 = the extending schema)"""
+    out = []
+    for si, shape in enumerate(SE_SHAPES):
+        n = len(se_docs(shape)[0])
+        for kts in itertools.product((None, "identifier"), repeat=n):
+            for own in (None, "identifier", "basic-key"):
+                for wild in range(n + 1):
+                    out.append((si, kts, own, wild))
+    return out
+
+
+def se_effective(docs, top_bases, kts, own):
+    """effective key type per document id (0 = the extending schema): its own attribute, else the one its bases
+    agree on, else basic-key; CONFLICT when the bases disagree (or one of them is in conflict itself)"""
+    eff = {}
+
+    def of(bases, attr):
+        got = [eff[b] for b in bases]
+        if SE_CONFLICT in got:
+            return SE_CONFLICT
+        if attr:
+            return attr
+        if not got:
+            return "basic-key"
+        return got[0] if len(set(got)) == 1 else SE_CONFLICT
+    for d in reversed(docs):                      # preorder reversed: bases before the documents that extend them
+        eff[d["id"]] = of(d["bases"], kts[d["id"] - 1])
+    eff[0] = of(top_bases, own)
+    return eff
+
+
+def shard_extends_names(arg, acc):
+    lo, hi, tier = arg
+    space = se_space(tier)
+    depth = 1 if tier == "quick" else 2
+    d0 = tempfile.mkdtemp(prefix="vz-c11-", dir="/dev/shm" if os.path.isdir("/dev/shm") else None)
+    try:
+        for idx in range(lo, min(hi, len(space))):
+            si, kts, own, wild = space[idx]
+            docs, top_bases = se_docs(SE_SHAPES[si])
+            eff = se_effective(docs, top_bases, kts, own)
+            final = eff[0]
+
+            def content(i):
+                """types and top-level items of document i.  Names with capitals where the document's effective
+                key type is the one of the whole schema; where it is not, what the merged schema says is not fixed
+                by the statement (the same region as a derived section type that changes the key type), and the
+                document only carries names every key type leaves alone."""
+                mixed = eff[i] == final
+                nm = (lambda s: s) if mixed else (lambda s: s.lower())
+                t = M.SType("bt%d" % i, (M.Key("Bk", default="b%d" % i),))
+                its = [M.Key(nm("Key%d" % i), default="v%d" % i),
+                       M.Sect("*", "bt%d" % i, attribute="bs%d" % i, multi=True)]
+                if wild == i:
+                    its.append(M.Key("+", attribute="w", default=((nm("Da"), "x"), ("db", "y"))))
+                return t, tuple(its), mixed
+            d = os.path.join(d0, "s%d" % idx)
+            os.makedirs(d)
+            files = {}
+            all_types, all_items = [], []
+            n_mixed = 0
+            for doc in docs:
+                t, its, mixed = content(doc["id"])
+                n_mixed += mixed
+                files["d%d.xml" % doc["id"]] = M.render(M.Schema(
+                    types=(t,), items=its, keytype=kts[doc["id"] - 1],
+                    extends=tuple("d%d.xml" % b for b in doc["bases"])))
+                all_types.append(t)
+                all_items += list(its)
+            t0, its0, _ = content(0)
+            composed = M.Schema(types=(t0,), items=its0, keytype=own, extends=tuple("d%d.xml" % b for b in top_bases))
+            files["htop.xml"] = M.render(composed)
+            for fn, xml in files.items():
+                with open(os.path.join(d, fn), "w") as f:
+                    f.write(xml)
+            loader = file_loader(os.path.join(d, "htop.xml"))
+            mid = {"feature": "schema-extends-names", "shape": repr(SE_SHAPES[si]), "base_keytypes": list(kts),
+                   "own_keytype": own, "wildcard_in_document": wild, "files": files}
+            acc.cls("extends-names:shape-%d" % si)
+            if final == SE_CONFLICT:
+                sch, err = loader()
+                acc.ev()
+                acc.states += 1
+                if sch is not None or isinstance(err, dict):
+                    acc.violation("conflicting-base-keytypes-not-refused", dict(mid, composed=files["htop.xml"]),
+                                  err or "accepted", "SchemaError",
+                                  tags={"kind": "schema-acceptance", "feature": "schema-extends-names"})
+                else:
+                    acc.cls("both-refused")
+                    acc.cls("extends-names:conflicting-key-types-refused")
+                shutil.rmtree(d, ignore_errors=True)
+                continue
+            merged = M.Schema(types=tuple(all_types) + (t0,), items=tuple(all_items) + its0,
+                              keytype=None if final == "basic-key" else final)
+            leaves = [doc["id"] for doc in docs if not doc["bases"]]
+            if final == "identifier":
+                acc.cls("extends-names:case-preserving-schema")
+                if own is None:
+                    acc.cls("extends-names:case-preserving-key-type-comes-from-the-bases-only")
+                if wild in leaves:
+                    acc.cls("extends-names:capitalised-wildcard-defaults-in-a-base-without-bases")
+            if any(eff[i] != final for i in eff):
+                acc.cls("extends-names:a-document-under-another-key-type(lower-case-names-there)")
+            acc.cls("extends-names:documents-with-capitals-%d" % n_mixed)
+            compare(files["htop.xml"], X.expand(merged), acc, mid, depth, "schema-extends-names",
+                    composed_loader=loader, top_unordered=True)
+            shutil.rmtree(d, ignore_errors=True)
+    finally:
+        shutil.rmtree(d0, ignore_errors=True)
+    return acc
+
+
 def import_combos(tier):
     out = []
     for pb_imp in ((), ("pa",)):
@@ -1208,6 +1740,37 @@ def run(tier):
     nho = len(homonym_space(tier))
     hb = history_bounds(tier)
     nhist = len(history_worlds()) * len(hb[0]) * (len(hb[1]) * len(hb[2]) + (len(hb[3]) ** 3 if hb[3] else 0))
+    nnt_sp, nnt = len(nt_space(tier)), nt_count(tier)
+    ncy, ncyt = len(cy_worlds(tier)), len(cy_tops())
+    nse = len(se_space(tier))
+    w5 = ("Wave 5 - (h) names already in use: the inherited children have attribute != key name (Key 'a-b' -> a_b [under "
+          "identifier: 'Ab' -> ab], Key k attribute=v, '*' section and '*' multisection (no key at all), section n "
+          "attribute=sv, MultiKey 'm-k' [Mk], the '+' key, and a plain key as control): one of them (quick: or every "
+          "unordered pair, form L2; thorough: every ordered pair, every form) x container key type {default, identifier} x "
+          "form {L2: nd extends nb; L3-far: nd extends nm extends nb, the children in nb; L3-near: the children in nm; X: the "
+          "children at the top of a base schema FILE, the added one at the top of the schema that extends it} x the ONE "
+          "child the derived type / extending schema adds = kind {key, section%s} x key name over the pool {every key "
+          "name and every attribute name the inherited children occupy, the key names in capitals, a fresh name} x "
+          "attribute {computed from the name, or any identifier of the pool}, plus {'+' key, '*' section%s} x attribute: "
+          "%d bases -> %d schemas, each against its written-out expansion (refused together - a clash of key names or of "
+          "attribute names - or accepted together, then structure and every text of the depth-1 search inside <nd> / at "
+          "the top).  (i) import graphs with back edges: packages pa, pb, pc each import every list of length <= 2 without "
+          "repetition over ALL three packages, the package itself included (cycles, self-imports, back edges next to "
+          "diamonds) x per package its <import> elements before or after its own types%s: %d worlds x the schema's own "
+          "import lists of length 1..2 (%d); expansion = every component's types written out once where its FIRST import "
+          "puts them, a component counting as imported from the moment its import starts (refusal when that uses a type "
+          "before its definition); acceptance, structure, every text of the depth-1 search, and for every package P the "
+          "texts '', <ta/>, <tb/>, <tc/> behind a '%%import P' line against the expansion of (schema, that line).  "
+          "(j) schema-level extends with names that key types tell apart: every tree of <= 3 base documents (8 shapes: flat, "
+          "chains, mixed) x key type {none, identifier} per base document x {none, identifier, basic-key} on the extending "
+          "schema x the document that carries a '+' key with default keys 'Da', 'db': %d set-ups; every document has a key "
+          "'Key<i>', a section type with key 'Bk' and its slot; names are capitalised in every document whose effective key "
+          "type is the one of the whole schema (elsewhere lower-case: what the merged schema is when a base reads its own "
+          "names under another key type is not fixed by the statement); merged schema = all of it in one document under the "
+          "effective key type, refusal when bases disagree and the extender names none; search depth %d.  "
+          % (", multikey" if tier != "quick" else "", ", '*' multisection, '+' section" if tier != "quick" else "",
+             nnt_sp, nnt, " (quick: per package when no list is longer than 1, else all alike)" if tier == "quick" else "",
+             ncy, ncyt, nse, 1 if tier == "quick" else 2))
     run = core.Run(
         "C11", tier, "model_checking",
         rule="%d extends chains (length 1..3; every item kind per link; key type / datatype / implements overridden at "
@@ -1251,7 +1814,7 @@ def run(tier):
              % (nch, npr, nim, 2 if tier == "quick" else 3, ", ".join(SPELL[tier][None]), nsp, ntop, nsp * ntop,
                 1 if tier == "quick" else 2, 0 if tier == "quick" else 1,
                 nho, 1 if tier == "quick" else 2, 1 if tier == "quick" else 2, nhist,
-                " (section names none / n1)" if tier == "quick" else ""),
+                " (section names none / n1)" if tier == "quick" else "") + "  " + w5,
         bounds={"chains": nch, "prefix_schemas": npr, "import_graphs": nim, "depth": 3,
                 "import_spelling_package_sets": nsp, "import_spelling_schema_import_lists": ntop,
                 "import_spelling_schemas": nsp * ntop, "import_spelling_alphabet": list(SPELL[tier][None]),
@@ -1260,7 +1823,14 @@ def run(tier):
                 "homonym_text_depth": 1 if tier == "quick" else 2,
                 "import_histories": nhist, "history_schema_import_lists": len(hb[0]),
                 "history_first_read_lists": len(hb[1]), "history_last_read_lists": len(hb[2]),
-                "history_triples_over_lists": len(hb[3]) if hb[3] else 0, "history_text_depth": 1},
+                "history_triples_over_lists": len(hb[3]) if hb[3] else 0, "history_text_depth": 1,
+                "names_in_use_bases": nnt_sp, "names_in_use_schemas": nnt, "names_in_use_forms": list(NT_FORMS),
+                "names_in_use_inherited_alphabet": [l for l, _ in nt_base_alphabet(None)],
+                "names_in_use_inherited_children": "1, or 2 (quick: unordered pairs in form L2; thorough: ordered pairs in every form)",
+                "import_cycle_worlds": ncy, "import_cycle_schema_import_lists": ncyt,
+                "import_cycle_schemas": ncy * ncyt, "import_cycle_package_import_list_length": 2,
+                "schema_extends_names_setups": nse, "schema_extends_names_shapes": [repr(x) for x in SE_SHAPES],
+                "schema_extends_names_text_depth": 1 if tier == "quick" else 2},
         assumptions=["expansion rules of vz/gen/expand.py written from the statement",
                      "merge order of base schemas is not fixed by the statement: top-level attribute order is not compared there",
                      "not generated (unspecified): a derived key type under which declared base key names are not fixed points"])
@@ -1280,9 +1850,44 @@ def run(tier):
     core.pmap(shard_homonyms, [(lo, lo + step, tier) for lo in range(0, nho, step)], run.acc, shard_budget=3000.0)
     core.pmap(shard_histories, [(w, top, tier) for w in history_worlds() for top in hb[0]], run.acc,
               shard_budget=3000.0)
+    step = max(1, (nnt_sp + 63) // 64)
+    core.pmap(shard_names, [(lo, lo + step, tier) for lo in range(0, nnt_sp, step)], run.acc, shard_budget=3000.0)
+    step = max(1, (ncy + 127) // 128)
+    core.pmap(shard_cycles, [(lo, lo + step, tier) for lo in range(0, ncy, step)], run.acc, shard_budget=3000.0)
+    step = max(1, (nse + 63) // 64)
+    core.pmap(shard_extends_names, [(lo, lo + step, tier) for lo in range(0, nse, step)], run.acc, shard_budget=3000.0)
     a = run.acc
     a.traces = a.transitions
     c = a.classes
+    run.require(c.get("names:same-attribute-different-key-name:both-refused", 0) > 500,
+                "names axis: few derived types add a child that wants the attribute of an inherited child with another key name")
+    run.require(c.get("names:attribute-equals-an-inherited-key-name:both-accepted", 0) > 100,
+                "names axis: few derived types add a child whose attribute is the KEY name of an inherited child "
+                "that is stored under another attribute (no clash)")
+    run.require(c.get("names:key-name-equals-an-inherited-attribute:both-accepted", 0) > 100,
+                "names axis: few derived types add a child whose key name is the ATTRIBUTE of an inherited child (no clash)")
+    run.require(c.get("names:same-key-name:both-refused", 0) > 500, "names axis: few key-name clashes")
+    run.require(all(c.get("names:form-" + f, 0) > 200 for f in NT_FORMS), "names axis: a form was hardly used")
+    run.require(a.extra.get("names: the expansion's acceptance is not what the documented naming rule says", 0) == 0,
+                "names axis: the classification of clashes (reference view of key / attribute names) disagrees with the "
+                "acceptance of the written-out expansion")
+    run.require(c.get("cycles:accepted-schema-with-a-back-edge", 0) > 1000,
+                "cycle axis: few accepted schemas whose import graph leads back to a component in progress")
+    run.require(c.get("cycles:component-imports-itself", 0) > 500, "cycle axis: few self-imports")
+    run.require(c.get("cycles:back-edge-to-a-component-in-progress", 0) > 500, "cycle axis: few back edges")
+    run.require(c.get("cycles:back-edge-and-types-written-before-the-imports", 0) > 500,
+                "cycle axis: few back edges into components that write their types before their imports")
+    run.require(c.get("cycles:%import-enters-a-cycle-the-schema-had-not-entered", 0) > 500,
+                "cycle axis: few texts whose %import line enters a cycle")
+    run.require(c.get("extends-names:case-preserving-key-type-comes-from-the-bases-only", 0) > 50,
+                "extends-names axis: few set-ups whose case-preserving key type is named by base documents only")
+    run.require(c.get("extends-names:capitalised-wildcard-defaults-in-a-base-without-bases", 0) > 50,
+                "extends-names axis: few set-ups with capitalised wildcard defaults in a leaf base document")
+    run.require(c.get("extends-names:conflicting-key-types-refused", 0) > 30,
+                "extends-names axis: few set-ups with conflicting base key types")
+    run.require(sum(v for k, v in c.items() if k.startswith("extends-names:documents-with-capitals-")
+                    and int(k.rsplit("-", 1)[1]) >= 2) > 100,
+                "extends-names axis: few set-ups with capitalised names in two or more base documents")
     run.require(c.get("homonyms:one-relative-spelling-under-two-effective-prefixes", 0) > 300,
                 "homonym axis: few schemas write one relative spelling under two different effective prefixes")
     run.require(c.get("homonyms:one-function-under-two-relative-spellings", 0) > 100,
@@ -1438,12 +2043,52 @@ def replay(body):
         name = re.search(r'<import package="([^"]+)"/>', case["composed"]).group(1)
         with rebuilt_packages({name: case["component"]}):
             return replay_pair(case)
-    if case.get("feature") == "homonyms" and "files" in case:
+    if case.get("feature") in ("homonyms", "names-in-use", "schema-extends-names") and "files" in case:
         return replay_files(case)
+    if case.get("feature") == "import-cycles":
+        return replay_cycles(case)
     if case.get("feature") in ("schema-extends", "component-imports"):
         print("cases with base files / generated packages are re-checked by ./check C11")
         return 1
     return replay_pair(case)
+
+
+def replay_cycles(case):
+    """the generated packages are rebuilt from the recorded component files; the composed schema against the
+    expansion: acceptance, structure, the text (with its %import line) against the expansion's reading of the body"""
+    rc = 0
+    with rebuilt_packages(case["components"]):
+        print("--- composed schema\n" + case["composed"])
+        for _ in range(2):
+            sc, ec = load_or_error(case["composed"])
+            print("composed schema:", ec or "accepted")
+            if not case.get("expanded"):
+                # the expansion is no schema (a type used before its definition) or the read had to be refused
+                if "text" not in case:
+                    rc = max(rc, 1 if sc is not None or isinstance(ec, dict) else 0)
+                elif sc is None:
+                    rc = 1
+                else:
+                    got = outcome(sc, case["text"])
+                    print("text: %r -> %s (must be refused)" % (case["text"], got[0]))
+                    rc = max(rc, 0 if got == ("R",) else 1)
+                continue
+            se, ee = load_or_error(case["expanded"])
+            print("expanded schema:", ee or "accepted")
+            if sc is None or se is None:
+                rc = 1
+                continue
+            if "text" not in case:
+                if struct(sc) != struct(se):
+                    print("structure differs:", struct_diff(struct(sc), struct(se)))
+                    rc = 1
+                continue
+            a, b = outcome(sc, case["text"]), outcome(se, case["body"])
+            print("text: %r\ncomposed: %s %s\nexpanded (body %r): %s %s" % (
+                case["text"], a[0], repr(a[1:])[:300], case["body"], b[0], repr(b[1:])[:300]))
+            if a != b:
+                rc = 1
+    return rc
 
 
 def replay_spelling(case):
